@@ -458,7 +458,7 @@ func (s *nhOnDiskSM) RecoverFromSnapshot(r io.Reader, done <-chan struct{}) erro
 		cur := atomic.LoadInt64(&s.h.inj.count)
 		if atomic.LoadInt64(&s.h.inj.at) == 0 {
 			atomic.StoreInt32(&s.h.inj.fired, 0)
-			at := cur + 1 + int64(atomic.LoadUint32(&s.jit)%24)
+			at := cur + 1 + int64(atomic.LoadUint32(&s.jit)%90)
 			atomic.StoreInt64(&s.h.inj.at, at)
 			s.c.rec.emit("Armed", nhEv{"h": s.h.id, "at": at, "applied": idx})
 		}
